@@ -4,7 +4,7 @@ CFG = dict(
     distinct_by_op=True,
     rule="ops are (text, pattern) pairs over {a,b,.,%,_} (patterns expanded into matching texts and perturbed), "
          "sent to the three Go matchers, to convertLikeToFunction, and through SQL in WHERE / CASE / HAVING position; "
-         "IS [NOT] NULL ops over missing/NULL/present cells on four SQL paths; distinct = distinct op line",
+         "IS [NOT] NULL ops over missing/NULL/present cells on four SQL paths; distinct = distinct op line Added late: in the `noise` cases the single-row helper creates its instance with an input schema and first sends a row the schema rejects. Every fifth case runs under WithHighPerformance (`preset high`), for C05/C06/C12/C13/C14/C16/C20 another fifth under WithLowLatency (`preset low`); every seventh case follows a noise prelude (failing statements, malformed rows, panicking sink / function in other instances).",
     assumptions=["expr-lang's ==, startsWith, endsWith, contains on strings are Go string equality / strings.HasPrefix / HasSuffix / Contains (validated only by the SQL-level correspondence)",
                  "LIKE with a NULL/missing text is 'not true' (read off the property's 'true exactly when the whole text of x matches'); generated only inside the combined CASE / HAVING forms (`combo` ops), where both evaluation paths agree on it"],
 )
